@@ -68,11 +68,14 @@ RULE = (
     "history shape (linear/branched/merged/depends_on, 1..N revisions) x per-revision bodies (create/drop table, add/drop column, "
     "create/drop index, bulk_insert with awkward literals and identifiers, columns with string/number/expression server defaults (nullable or not; "
     "rows give a value, an explicit None or omit the key; also add_column(server_default=...) followed by bulk_insert), multiinsert on/off, "
-    "execute of plain statements as plain strings and as sa.text() constructs, their string literals with text()-special content "
+    "optional `with op.get_context().autocommit_block():` sections around any run of a body's statements (the online result is read from a "
+    "fresh connection after env.py's connection is closed, so only what was committed counts), execute of plain statements as plain strings and as sa.text() constructs, their string literals with text()-special content "
     "(\\:name escapes, ::, a:b, %, %%, %s, ?, and rarely unescaped :name / %(x)s) x command x start heads x target; "
     "a case is non-trivial when both runs succeed and the script has >= 1 statement besides version bookkeeping; distinct by script text"
 )
 ASSUMPTIONS = [
+    "autocommit_block sections are transparent for the Lean model (it has no transaction layer; on SQLite --sql emits no BEGIN/COMMIT): "
+    "the model sees the flattened body; transaction framing of offline scripts is property C18's, durability of online work is checked by the oracle",
     "env.py has the documented shape (shipped generic template): offline configure(url=..., literal_binds=True); with context.begin_transaction(): context.run_migrations()",
     "for a range starting at base the target database has no alembic_version table (what an offline downgrade to base leaves); for any other start its rows equal the assumed start",
     "string values do not contain U+0000 (SQLite cannot take it in SQL text; the sqlite3 module rejects the statement)",
